@@ -7,6 +7,8 @@ import (
 	"go/token"
 	"go/types"
 	"math/big"
+	"sort"
+	"strings"
 
 	"golang.org/x/tools/go/ssa"
 )
@@ -189,6 +191,22 @@ func (fc *FnCtx) execBlock(b *ssa.BasicBlock, st *State) []edgeOut {
 			fc.vals[x] = SV{Typ: x.Type(), T: []Term{r}}
 			T := pointee(x.Type())
 			vc.store(st, fc.e.rootLV(r, T), vc.zero(T))
+			if isStruct(T) && !fc.e.isOpaqueStruct(T) {
+				// ghost fields of a new object start at their default value
+				var gs []string
+				for g := range fc.e.spec.Ghosts {
+					gs = append(gs, g)
+				}
+				sort.Strings(gs)
+				for _, g := range gs {
+					if g == "locked" {
+						continue
+					}
+					gf := fc.e.spec.Ghosts[g]
+					fc.ghostSet(st, g, gf.Sort, r, zeroOfSort(gf.Sort))
+				}
+				fc.onceInit(st, r, T)
+			}
 		case *ssa.FieldAddr:
 			fc.nilCheck(st, x.X, x.Pos())
 			base := fc.lvOf(x.X)
@@ -233,6 +251,7 @@ func (fc *FnCtx) execBlock(b *ssa.BasicBlock, st *State) []edgeOut {
 			lv := fc.lvOf(x.Addr)
 			v := fc.coerce(fc.val(x.Val), lv.Typ)
 			fc.frameCheck(st, lv, x.Pos())
+			fc.guardCheck(st, lv, x.Pos(), "write")
 			vc.store(st, lv, v)
 			fc.afterStore(st, lv, x)
 		case *ssa.Convert:
@@ -325,6 +344,29 @@ func (fc *FnCtx) execBlock(b *ssa.BasicBlock, st *State) []edgeOut {
 	return nil
 }
 
+// guardCheck: accesses to a field declared `guardedby T.f T.mu` require the
+// mutex of the same object to be held (unless the object is still private to
+// this activation).
+func (fc *FnCtx) guardCheck(st *State, lv *LV, pos token.Pos, what string) {
+	if lv.HasIdx || lv.Elem {
+		return
+	}
+	field := lv.Path
+	if k := strings.Index(field, "."); k >= 0 {
+		field = field[:k]
+	}
+	mu, ok := fc.e.spec.Guarded[lv.Col+"."+field]
+	if !ok {
+		return
+	}
+	mf := mu[strings.Index(mu, ".")+1:]
+	mlv := &LV{Col: lv.Col, Path: mf, Ref: lv.Ref}
+	held := fc.ghostGet(st, "locked", SBool, fc.interiorPtr(mlv))
+	root := fc.unitCtx()
+	goal := mkOr(mkLe(root.entry.alloc, lv.Ref), held)
+	fc.vc.oblige(st, "lock", "", what+" "+lv.Col+"."+field+" under "+mu, fc.e.pos(pos), goal)
+}
+
 func (fc *FnCtx) newRef(st *State, hint string) Term {
 	r := fc.vc.define(hint, SInt, st.alloc)
 	if r == st.alloc && !isNum(r) {
@@ -355,11 +397,22 @@ func (fc *FnCtx) newArray(st *State, elem types.Type, hint string) Term {
 // uninterpreted injective encoding; only sync.* methods may receive it.
 func (fc *FnCtx) interiorPtr(lv *LV) Term {
 	name := "addr_" + sanitize(lv.Col+"."+lv.Path)
+	first := !fc.vc.ufDecl[name]
 	if lv.HasIdx {
 		fc.vc.declUF(name, []Sort{SInt, SInt}, SInt)
+		if first {
+			// addresses of distinct locations are distinct (injective encoding)
+			fc.vc.declUF(name+"_obj", []Sort{SInt}, SInt)
+			fc.vc.declUF(name+"_idx", []Sort{SInt}, SInt)
+			fc.vc.assertGlobal(fmt.Sprintf("(forall ((r Int) (i Int)) (and (= (%s_obj (%s r i)) r) (= (%s_idx (%s r i)) i)))", name, name, name, name))
+		}
 		return mkApp(name, lv.Ref, lv.Idx)
 	}
 	fc.vc.declUF(name, []Sort{SInt}, SInt)
+	if first {
+		fc.vc.declUF(name+"_obj", []Sort{SInt}, SInt)
+		fc.vc.assertGlobal(fmt.Sprintf("(forall ((r Int)) (= (%s_obj (%s r)) r))", name, name))
+	}
 	return mkApp(name, lv.Ref)
 }
 
@@ -405,7 +458,11 @@ func (fc *FnCtx) unop(st *State, x *ssa.UnOp) {
 				return
 			}
 		}
-		fc.vals[x] = vc.load(st, fc.lvOf(x.X))
+		lv := fc.lvOf(x.X)
+		fc.guardCheck(st, lv, x.Pos(), "read")
+		fc.vals[x] = vc.load(st, lv)
+		fc.timerChanOf(x, lv)
+		fc.loadedFrom[x] = lv
 	case token.NOT:
 		fc.vals[x] = SV{Typ: x.Type(), T: []Term{mkNot(fc.val(x.X).one())}}
 	case token.SUB:
@@ -597,9 +654,10 @@ func (fc *FnCtx) convert(st *State, x *ssa.Convert) SV {
 		case sInt && dInt:
 			return SV{Typ: x.Type(), T: []Term{wrapTo(fc.val(x.X).one(), x.Type())}}
 		case sFlt && dInt:
-			vc.declUF("f2i", []Sort{SInt}, SInt)
+			vc.declUF("uf_f2i", []Sort{SInt}, SInt)
+			vc.usedUF["f2i"] = true
 			vc.note("float-to-integer conversion modelled by f2i, exact on whole seconds (" + fc.e.pos(x.Pos()) + ")")
-			return SV{Typ: x.Type(), T: []Term{wrapTo(mkApp("f2i", fc.val(x.X).one()), x.Type())}}
+			return SV{Typ: x.Type(), T: []Term{wrapTo(mkApp("uf_f2i", fc.val(x.X).one()), x.Type())}}
 		}
 	}
 	if len(fc.e.shape(x.X.Type()).Leaves) == len(fc.e.shape(x.Type()).Leaves) && !(sok && dok) {
